@@ -7,13 +7,13 @@ Driver for C10 (family `c10`).
 
 params: host(task|sub) kinds(one letter per boundary event: i|n) mode schedule
 lines : `prog …` (the parsed definitions), `op|opnw answer <task> <occ> ok -`, `op|opnw deliver signal sig<k>`,
-        `op hold|release <point>`, `obs task <node> <occ> …`, `obs ret deliver sig<k> returned|blocked`,
+        `op hold|release <point>`, `obs task <node> <occ> …`, `obs cancelnode H`, `obs ret deliver sig<k> returned|blocked`,
         `obs final complete=<b> hostpending=<b> pending=<n>`, other `obs` trace lines (ignored here).
 
 1. model vs implementation (`diff`): the set of model states is driven by the recorded driver actions. Before an action
    that was issued at quiescence the set is closed under internal steps, reduced to the states in which no (unblocked)
    internal step is enabled, and then to those that agree with what the implementation has shown so far (requests
-   of the host, of the task on the normal path, of the task on each exception path). Before an action issued WITHOUT
+   of the host, of the task on the normal path, of the task on each exception path, cancel messages handled by the host). Before an action issued WITHOUT
    waiting the set is closed under internal steps only (any intermediate state may be the one the action meets).
    `hold <point>` blocks the labels of the goroutines the schedule controller parks there. An empty set is a
    disagreement. At the end the model's `canComplete` is compared with `WaitUntilComplete`.
@@ -36,11 +36,13 @@ structure Seen where
   h : Nat := 0
   n : Nat := 0
   x : List Nat := []
+  /-- cancel messages the host activity handled (it traces CancellationFlowNodeTrace before it decides) -/
+  c : Nat := 0
 deriving BEq, Repr
 
-def Seen.show (o : Seen) : String := s!"host={o.h} normal={o.n} exception={o.x}"
+def Seen.show (o : Seen) : String := s!"host={o.h} normal={o.n} exception={o.x} cancels={o.c}"
 
-def stSeen (s : St) : Seen := { h := s.hreqs, n := s.normal, x := s.ls.map (·.conts) }
+def stSeen (s : St) : Seen := { h := s.hreqs, n := s.normal, x := s.ls.map (·.conts), c := s.verdicts.length }
 
 def showStates (ss : List St) : String :=
   let xs := ss.map (fun s => (stSeen s).show)
@@ -57,6 +59,13 @@ def blockedBy (host : String) (points : List String) (l : Label) : Bool :=
        | .hostTake => true
        | .activate => true
        | .respond => host == "sub"   -- the inner token must take the inner task's action first
+       | _ => false)
+    else if p == "harness.before_next_action" then
+      -- the host's harness is parked between `active := 1` and `activity.NextAction`; the harness of the task on an
+      -- exception path would park there too, so a listener that moves on shows nothing until the release
+      (match l with
+       | .harnessCall => true
+       | .move _ => true
        | _ => false)
     else if p == "catch.process_event" then
       (match l with
@@ -75,6 +84,63 @@ def parseKinds (s : String) : Option (List Bool) :=
 
 def kvNat (ws : List String) (key : String) : Option Nat :=
   ((ws.find? (·.startsWith (key ++ "="))).map (fun w => (w.drop (key.length + 1)).toString)).bind String.toNat?
+
+
+/-- how the implementation's totals deviate from one admissible outcome `e` of the reference -/
+def deviations (e : Ideal) (seen : Seen) (complete hostPending : Bool) (pendingLeft : Nat) : List String := Id.run do
+  let nb := e.kinds.length
+  let mut sigs : List String := []
+  if seen.n > e.normal then
+    if e.host == .interrupted then
+      sigs := s!"interrupting_normal_flow_continues: the host was answered after an interrupting boundary event had fired and its normal flow continued ({seen.n} request(s) of N, expected {e.normal})" :: sigs
+    else
+      sigs := s!"normal_flow_twice: {seen.n} requests of N, expected {e.normal}" :: sigs
+  if seen.n < e.normal then
+    sigs := s!"normal_flow_missing: {seen.n} requests of N, expected {e.normal}" :: sigs
+  for k in List.range nb do
+    let got := seen.x.getD k 0
+    let want := e.exc.getD k 0
+    if got > want then
+      let why := e.ign.getD k 0
+      if why == 3 then
+        sigs := s!"boundary_reacts_after_interruption: B{k+1} reacted ({got} request(s) of X{k+1}, expected {want}) to an event delivered after the host had been interrupted" :: sigs
+      else if why == 2 then
+        sigs := s!"boundary_reacts_after_completion: B{k+1} reacted ({got} request(s) of X{k+1}, expected {want}) to an event delivered after the host had completed" :: sigs
+      else if why == 1 then
+        sigs := s!"boundary_reacts_before_activation: B{k+1} reacted ({got} request(s) of X{k+1}, expected {want}) to an event delivered before the host was reached" :: sigs
+      else
+        sigs := s!"exception_flow_twice: {got} requests of X{k+1}, expected {want}" :: sigs
+    if got < want then
+      if got ≥ 1 then
+        sigs := s!"non_interrupting_second_event_ignored: {want} events reached the non-interrupting B{k+1} while the host was waiting, the exception flow continued {got} time(s)" :: sigs
+      else
+        sigs := s!"exception_flow_missing: {want} event(s) reached B{k+1} while the host was waiting, X{k+1} was never requested" :: sigs
+  if pendingLeft == 0 && e.mayComplete && !complete then
+    let unfired := (List.range nb).filter (fun k => seen.x.getD k 0 == 0)
+    let mut explained := false
+    if e.host == .interrupted && hostPending then
+      sigs := "interrupted_activity_keeps_waiting: the host was interrupted but its request stays open and its token keeps the instance from completing" :: sigs
+      explained := true
+    if e.host == .interrupted && seen.h == 0 then
+      sigs := "interrupt_at_activation_strands_token: the interrupting event arrived while the host was being activated; the activity accepted the cancel before its first message and never ran, its token never leaves" :: sigs
+      explained := true
+    if !unfired.isEmpty then
+      sigs := s!"armed_listener_blocks_completion: every task was answered, boundary event(s) {unfired.map (fun k => s!"B{k+1}")} never fired, the instance does not complete" :: sigs
+      explained := true
+    if !explained then
+      sigs := "instance_not_complete: every task was answered and every boundary event fired, the instance does not complete" :: sigs
+  if pendingLeft == 0 && !e.mayComplete && complete then
+    sigs := "completes_early: the instance completed although the host still waits for its answer" :: sigs
+  return sigs
+
+/-- deviations the code is known to show weigh 1, anything else 4: among the admissible outcomes of racing actions
+the one that explains the implementation with the least weight is reported (a deviation of a kind that is NOT known is
+reported whenever no admissible order explains the run without it) -/
+def cost (sigs : List String) : Nat :=
+  (sigs.map (fun s =>
+    if s.startsWith "interrupting_normal_flow_continues:" || s.startsWith "armed_listener_blocks_completion:"
+       || s.startsWith "interrupted_activity_keeps_waiting:" || s.startsWith "non_interrupting_second_event_ignored:"
+       || s.startsWith "boundary_reacts_after_interruption:" || s.startsWith "interrupt_at_activation_strands_token:" then 1 else 4)).sum
 
 def check (params lines : List String) : CaseResult := Id.run do
   let some (host, kinds) := (match params with
@@ -102,10 +168,10 @@ def check (params lines : List String) : CaseResult := Id.run do
   let mut opNo := 0
   -- reference
   let mut ideal : List Ideal := [Ideal.init kinds]
-  let mut recorded : Ideal := Ideal.init kinds   -- the reference run in the recorded order
   let mut batch : List Act := []
   let mut inHold := false
   let mut final : Option (Bool × Bool × Nat) := none
+  let mut noQuiesce := false
   for ln in lines do
     let ws := words ln
     match ws with
@@ -118,6 +184,8 @@ def check (params lines : List String) : CaseResult := Id.run do
       else match xIndex node with
         | some k => seen := { seen with x := Bpmn.Spec.Boundary.bump seen.x k }
         | none => r := { r with bad := s!"unexpected request {node}" :: r.bad }
+    | ["obs", "cancelnode", node] =>
+      if node == "H" then seen := { seen with c := seen.c + 1 }
     | ["obs", "ret", "deliver", name, res] =>
       if res != "returned" then
         r := { r with specs := s!"event_delivery_blocked: delivery of {name} did not return within its deadline" :: r.specs }
@@ -125,7 +193,7 @@ def check (params lines : List String) : CaseResult := Id.run do
       r := { r with specs := s!"answer_blocked: Do of {node} {occ} did not return within its deadline" :: r.specs }
     | "obs" :: "panic" :: rest =>
       r := { r with specs := ("panic: " ++ " ".intercalate rest) :: r.specs }
-    | ["obs", "noquiesce"] => r := { r with specs := "no_quiescence: the engine kept running (busy loop)" :: r.specs }
+    | ["obs", "noquiesce"] => noQuiesce := true
     | ["obs", "norequest", node] => r := { r with bad := s!"no request of {node} to answer" :: r.bad }
     | ["obs", "notarrived", pt] => r := { r with bad := s!"nothing parked at {pt}" :: r.bad }
     | "obs" :: "final" :: rest =>
@@ -174,7 +242,6 @@ def check (params lines : List String) : CaseResult := Id.run do
         match act with
         | some a =>
           batch := batch ++ [a]
-          recorded := recorded.step a
         | none => pure ()
         if !(kind == "opnw") && !inHold then
           ideal := Bpmn.Spec.Boundary.afterBatch ideal batch
@@ -195,51 +262,19 @@ def check (params lines : List String) : CaseResult := Id.run do
         r := { r with diffs := s!"at the end: WaitUntilComplete {complete}, model canComplete {m.map (canComplete cfg)} ({seen.show})" :: r.diffs }
       if !(m.any (fun s => (s.req == .pending) == hostPending)) then
         r := { r with diffs := s!"at the end: host request pending {hostPending}, model {m.map (fun s => repr s.req)}" :: r.diffs }
-  -- the property on what the implementation did
-  let admissible := ideal.any (fun s =>
-    s.normal == seen.n && s.exc == seen.x && (pendingLeft != 0 || s.mayComplete == complete))
-  if !admissible then
-    let e := recorded
-    let mut sigs : List String := []
-    if seen.n > e.normal then
-      if e.host == .interrupted then
-        sigs := s!"interrupting_normal_flow_continues: the host was answered after an interrupting boundary event had fired and its normal flow continued ({seen.n} request(s) of N, expected {e.normal})" :: sigs
-      else
-        sigs := s!"normal_flow_twice: {seen.n} requests of N, expected {e.normal}" :: sigs
-    if seen.n < e.normal then
-      sigs := s!"normal_flow_missing: {seen.n} requests of N, expected {e.normal}" :: sigs
-    for k in List.range nb do
-      let got := seen.x.getD k 0
-      let want := e.exc.getD k 0
-      if got > want then
-        if want == 0 && e.host != .notReached then
-          sigs := s!"boundary_reacts_after_completion: B{k+1} reacted ({got} request(s) of X{k+1}) although no event reached it while the host was waiting" :: sigs
-        else if want == 0 then
-          sigs := s!"boundary_reacts_before_activation: B{k+1} reacted ({got} request(s) of X{k+1}) to an event delivered before the host was reached" :: sigs
-        else
-          sigs := s!"exception_flow_twice: {got} requests of X{k+1}, expected {want}" :: sigs
-      if got < want then
-        if got ≥ 1 then
-          sigs := s!"non_interrupting_second_event_ignored: {want} events reached the non-interrupting B{k+1} while the host was waiting, the exception flow continued {got} time(s)" :: sigs
-        else
-          sigs := s!"exception_flow_missing: {want} event(s) reached B{k+1} while the host was waiting, X{k+1} was never requested" :: sigs
-    if pendingLeft == 0 && e.mayComplete && !complete then
-      let unfired := (List.range nb).filter (fun k => seen.x.getD k 0 == 0)
-      let mut explained := false
-      if e.host == .interrupted && hostPending then
-        sigs := "interrupted_activity_keeps_waiting: the host was interrupted but its request stays open and its token keeps the instance from completing" :: sigs
-        explained := true
-      if !unfired.isEmpty then
-        sigs := s!"armed_listener_blocks_completion: every task was answered, boundary event(s) {unfired.map (fun k => s!"B{k+1}")} never fired, the instance does not complete" :: sigs
-        explained := true
-      if !explained then
-        sigs := "instance_not_complete: every task was answered and every boundary event fired, the instance does not complete" :: sigs
-    if pendingLeft == 0 && !e.mayComplete && complete then
-      sigs := "completes_early: the instance completed although the host still waits for its answer" :: sigs
-    if sigs.isEmpty then
-      -- the recorded order is admissible componentwise but no single order explains everything
-      sigs := [s!"no_admissible_order: implementation normal={seen.n} exception={seen.x} complete={complete} is not the outcome of any order of the racing actions"]
-    r := { r with specs := sigs ++ r.specs }
+  -- the property on what the implementation did: the deviations from the admissible outcome that explains it best
+  let spinning := !stop && noQuiesce && host == "sub" && ss.any (fun s => s.verdicts.contains true)
+  if noQuiesce then
+    if spinning then
+      r := { r with specs := "accepted_cancel_spins_subprocess_tracer: the sub-process accepted the cancel, its run loop cancelled the inner tracer's context while inner senders are alive, and that tracer now polls in a busy loop" :: r.specs }
+    else
+      r := { r with specs := "no_quiescence: the engine kept running (busy loop)" :: r.specs }
+  let cands := ideal.map (fun e => deviations e seen complete hostPending pendingLeft)
+  let best := cands.foldl (fun (b : Option (List String)) c =>
+    match b with
+    | none => some c
+    | some b0 => if cost c < cost b0 then some c else some b0) none
+  r := { r with specs := (best.getD []) ++ r.specs }
   let reacted := seen.n > 0 || seen.x.any (· > 0)
   return { r with nontrivial := reacted }
 
